@@ -9,7 +9,12 @@ use crate::interpreter::variant_casts::VariantCasts;
 pub fn run<S: InterpreterTrait>(interpreter: &mut S) -> Result<(), RuntimeError> {
     let s = interpreter.context()[0].to_str_unchecked();
     let bytes: Vec<u8> = to_ascii_bytes(s);
-    let f = bytes_to_f64(&bytes);
+    // CVD decodes the eight bytes MKD$ produces: a shorter string is an
+    // Illegal function call, characters after the eighth are ignored
+    if bytes.len() < 8 {
+        return Err(RuntimeError::IllegalFunctionCall);
+    }
+    let f = bytes_to_f64(&bytes[..8]);
     interpreter
         .context_mut()
         .set_built_in_function_result(BuiltInFunction::Cvd, f);
